@@ -73,8 +73,22 @@ def gen_utc(y0, y1, times=TIMES):
                 for (h, mi, s) in times:
                     ev = {"k": "utc", "y": y, "m": m, "d": d, "h": h, "mi": mi, "s": s, "last": 1 if d == last else 0}
                     try:
-                        eu = Epoch(y, m, d, h, mi, s, utc=True)
-                        en = Epoch(y, m, d, h, mi, s)
+                        form = (y + 5 * m + d + h) % 6
+                        if form == 1:
+                            eu, en = Epoch((y, m, d, h, mi, s), utc=True), Epoch([y, m, d, h, mi, s])
+                        elif form == 2 and (mi, s) == (0, 0):
+                            eu, en = Epoch(y, m, d, h, utc=True), Epoch(y, m, d, h)              # four values: hour only
+                        elif form == 3 and (mi, s) == (0, 0):
+                            eu, en = Epoch([y, m, d, h], utc=True), Epoch((y, m, d, h))
+                        elif form == 4 and s == 0:
+                            eu, en = Epoch(y, m, d, h, mi, utc=True), Epoch((y, m, d, h, mi))    # five values
+                        elif form == 5:
+                            eu, en = Epoch(2000, 1, 1.5), Epoch(1990, 6, 6)
+                            eu.set(y, m, d, h, mi, s, utc=True)
+                            en.set(y, m, d, h, mi, s)
+                        else:
+                            eu = Epoch(y, m, d, h, mi, s, utc=True)
+                            en = Epoch(y, m, d, h, mi, s)
                         ev["ju"], ev["jn"] = fx(eu.jde()), fx(en.jde())
                         ev["rb"], ev["rbs"] = _readback(eu, utc=True)
                     except Exception:
@@ -91,11 +105,19 @@ def gen_ovr(y0, y1, ks):
                 ev = {"k": "ovr", "y": y, "m": m, "d": d, "h": h, "mi": mi, "s": s, "kk": kk}
                 try:
                     # the override alone, or together with utc=True (which it implies): the same instant either way
-                    if (y + m + kk) % 2:
+                    en = Epoch(y, m, d, h, mi, s)
+                    form = (y + m + kk) % 5
+                    if form == 1:
                         eu = Epoch(y, m, d, h, mi, s, leap_seconds=kk)
+                    elif form == 2:
+                        eu = Epoch(en.jde(), leap_seconds=kk)               # the same civil instant given as one Julian Day number
+                    elif form == 3:
+                        eu = Epoch((y, m, d, h, mi, s), leap_seconds=kk)
+                    elif form == 4:
+                        eu = Epoch(1999, 12, 31)
+                        eu.set(en.jde(), leap_seconds=kk)
                     else:
                         eu = Epoch(y, m, d, h, mi, s, utc=True, leap_seconds=kk)
-                    en = Epoch(y, m, d, h, mi, s)
                     ev["ju"], ev["jn"] = fx(eu.jde()), fx(en.jde())
                     ev["rb"], ev["rbs"] = _readback(eu, leap_seconds=kk)
                 except Exception:
